@@ -36,7 +36,8 @@ SEQ = ("str", "bytes")
 # Gallina globals that the emitted code refers to: a Python variable of the same name is renamed (suffix _)
 RESERVED = set(INV_FIELDS.values()) | set(ITEM_FIELDS.values()) | set(INVMATCH_FIELDS.values()) | {
     "stream", "buffer", "eof", "dec", "decode", "dstep", "dflush", "derr", "dinit", "match_line", "rstrip", "contains", "join",
-    "length", "fst", "snd", "app", "nil", "cons", "None", "Some", "negb", "andb", "orb", "skipn", "firstn", "removelast"}
+    "length", "fst", "snd", "app", "nil", "cons", "None", "Some", "negb", "andb", "orb", "skipn", "firstn", "removelast",
+    "match", "end", "with", "fun", "let", "fix", "forall", "exists", "Type", "Set", "Prop"}
 
 
 class _Rename(ast.NodeTransformer):
@@ -256,8 +257,8 @@ class Walker:
                 if isinstance(v, ast.Constant):
                     parts.append(lit(v.value))
                 elif isinstance(v, ast.FormattedValue) and v.conversion == -1 and v.format_spec is None \
-                        and isinstance(v.value, ast.Name) and self.vtype(v.value.id) == "str":
-                    parts.append(self.use(v.value.id))
+                        and isinstance(v.value, (ast.Name, ast.Attribute)) and self.ty(v.value) == "str":
+                    parts.append(self.ex(v.value))
                 else:
                     raise U(f"f-string part {ast.dump(v)[:80]}")
             return "(" + " ++ ".join(parts) + ")" if parts else "[]"
